@@ -27,3 +27,8 @@ pub fn verif_with_capacity<T>(n: usize) -> (r: Vec<T>)
     requires safe_capacity(n as nat),
     ensures r@ == Seq::<T>::empty(),
 { Vec::with_capacity(n) }
+
+// `String::truncate(n)` panics unless `n` is >= the length or lies on a char boundary (std, ASSUMED; the boundary predicate
+// is vstd's, over the UTF-8 encoding; `str::is_char_boundary` is specified by vstd with the same predicate)
+pub assume_specification [String::truncate] (s: &mut String, n: usize)
+    requires n as int >= vstd::utf8::encode_utf8(old(s)@).len() || vstd::utf8::is_char_boundary(vstd::utf8::encode_utf8(old(s)@), n as int);
